@@ -60,8 +60,17 @@ func (tr TemplatedRegexp) Expand(rule parser.Rule) (*regexp.Regexp, error) {
 	return regexp.Compile(buf.String())
 }
 
+// neverMatch is what MustExpand falls back to when a pattern cannot be
+// expanded for a given rule, so callers always get a usable regexp.
+var neverMatch = regexp.MustCompile(`[^\s\S]`)
+
 func (tr TemplatedRegexp) MustExpand(rule parser.Rule) *regexp.Regexp {
-	re, _ := tr.Expand(rule)
+	re, err := tr.Expand(rule)
+	if err != nil {
+		// The pattern was validated against an empty rule, but values of this rule
+		// (names, labels, annotations) made the template fail or produced an invalid regexp.
+		return neverMatch
+	}
 	return re
 }
 
